@@ -74,6 +74,13 @@ def _get_seq_with_type(seq, bufsize=None):
     return (seq, seq_type)
 
 
+def _has_static_context(seq):
+    if not hasattr(seq, "_get_context"):
+        return False
+    transparent = getattr(seq, "_is_context_transparent", None)
+    return not (transparent is not None and transparent())
+
+
 class LenaSplit(object):
     """Abstract base class for split sequences."""
 
@@ -110,21 +117,26 @@ class LenaSplit(object):
         return "".join([base_indent, self._name,
                         "([", mnl, elems, mnl, mbi, "])"])
 
+    def _is_context_transparent(self):
+        """True if no sequence has a static context (for example,
+        all of them are simple elements). An enclosing sequence
+        then passes its context on unchanged.
+        """
+        return not any(_has_static_context(seq) for seq in self._seqs)
+
     def _get_context(self):
         contexts = []
         for seq in self._seqs:
             # if a sequence has no context at all,
             # it will be static context transparent
             # (not intersecting the others with {}).
-            if hasattr(seq, "_get_context"):
+            if _has_static_context(seq):
                 # if some of sequences was not set proper context yet,
                 # this will raise a LenaKeyError.
                 contexts.append(seq._get_context())
 
         if not contexts:
-            # no sequence has a static context (for example,
-            # all of them are simple elements): Split is transparent
-            return deepcopy(getattr(self, "_ext_context", {}))
+            return {}
         # we don't store the static context of Split,
         # because that is already stored in an external sequence.
         context = lena.context.intersection(*contexts)
@@ -133,9 +145,6 @@ class LenaSplit(object):
         return context
 
     def _set_context(self, context):
-        # the external context is used only if no sequence
-        # has a static context.
-        self._ext_context = deepcopy(context)
         if not context:
             # every sequence was already initialised with {}.
             return
